@@ -187,6 +187,7 @@ def generate(run, rng):
     mix = cfg["mix"]
     fr = cfg["fault_rate"]
     fileno = [0]
+    saved = []
 
     def ctor_any():
         if mix == "interval" or (mix == "both" and rng.random() < 0.6):
@@ -318,12 +319,15 @@ def generate(run, rng):
             fmt = g.pick(FORMATS)
             run.do({"op": "tg.save", "recv": tg, "a": [path, fmt, rng.random() < 0.5],
                     "k": {"reportingMode": "silence"}})
-            tg2 = w.new_handle()
-            o = run.do({"op": "openTextgrid", "a": [path, rng.random() < 0.5],
-                        "k": {"reportingMode": "silence"}, "out": tg2})
-            if o is not None and o.ok:
-                for nm in o.result.tierNames:
-                    run.do({"op": "tg.getTier", "recv": tg2, "a": [nm], "out": w.new_handle()})
+            saved.append(path)
+            # open it - sometimes twice, or an earlier file again: results of separate opens are independent objects
+            for path2 in [path] + ([g.pick(saved)] if rng.random() < 0.35 else []):
+                tg2 = w.new_handle()
+                o = run.do({"op": "openTextgrid", "a": [path2, rng.random() < 0.5],
+                            "k": {"reportingMode": "silence"}, "out": tg2})
+                if o is not None and o.ok:
+                    for nm in list(o.result.tierNames)[:3]:
+                        run.do({"op": "tg.getTier", "recv": tg2, "a": [nm], "out": w.new_handle()})
             evict()
             continue
         elif op == "ctor_shared":
